@@ -418,6 +418,20 @@ Qed.
 Lemma RO_maint_finish fuel mid wo w : RO w (maint_finish fuel nw mid wo w).
 Proof. unfold maint_finish. eapply RO_trans; [apply RO_restore|apply RO_maint_call, mprio_finish_post; constructor]. Qed.
 
+Lemma RO_rewire fuel w d ups : RO w (rewire fuel nw w d ups).
+Proof.
+  unfold rewire. set (x := getd w d). destruct (existsb (bad_up d w) ups); [Ot|].
+  match goal with |- RO w (fold_left _ ups (updd (fold_left _ _ ?w0') d _)) => set (w0 := w0') end.
+  assert (R0 : RO w w0).
+  { unfold w0. destruct (is_holder (d_kind x)); [|Ot]. destruct (d_wait_since x); [|Ot]. apply RO_dev. }
+  apply (RO_trans w w0); [exact R0|].
+  set (w1 := fold_left (fun w' u => updd w' u (t_down_del d)) (d_up x) w0).
+  apply (RO_trans w0 w1); [unfold w1; apply RO_fold; intros w' u; apply RO_dev|].
+  apply (RO_trans w1 (updd w1 d (t_up ups))); [apply RO_dev|].
+  apply RO_fold. intros w' u. destruct (existsb (Z.eqb d) (d_down (getd w' u))); [Ot|].
+  apply (RO_trans w' (updd w' u (t_down_add d))); [apply RO_dev|apply RO_signal].
+Qed.
+
 Lemma RO_run_uop fuel w o : RO w (run_uop fuel nw w o).
 Proof.
   unfold run_uop. destruct (negb (okf w)); [Ot|]. destruct o.
@@ -429,6 +443,7 @@ Proof.
     match goal with |- context[t_budget ?z] => odev w d (t_budget z) end.
     destruct (_ <? 1); [apply RO_sched_pass|Ot].
   - apply RO_dev.
+  - apply RO_rewire.
   - apply RO_rm_call, rprio_add, rprio_clean.
   - apply RO_create_wo.
 Qed.
